@@ -642,6 +642,20 @@ package storage
 //@   trusted
 //@   modifies storeState
 
+// Shutting a store down: the timer is stopped (ghost: the store no longer counts as open) and a complete flush is made.
+//@ func (f *fileStore) close() error
+//@   props C04 C17
+//@   requires txn == 0 && cacheOK(f) && (f.autoFlushCache ==> f.ticker != nil)
+//@   modifies txn, all(btreeNode.dirty), @cacheState, storeState, written, fdata(f.file), fsize(f.file), openStores
+//@   ensures[unlock; C13] txn == 0
+//@   ensures[flushed; C04] result == nil ==> headerIs(f) && (forall k any :: has(f.cache.cache, k) ==> !centry(f.cache.cache[k]).val.dirty)
+//@   ensures_assumed[ghost.closed] openStores == old(openStores) - (f.autoFlushCache ? 1 : 0)
+
+//@ func (w *wal) close() error
+//@   props C17
+//@   trusted
+//@   modifies storeState
+
 //@ func (rs *RelationService) Close() error
 //@   props C17
 //@   trusted
